@@ -267,6 +267,39 @@ func checkC05(c *Ctx) {
 			} else if root.Chance(1, 2) {
 				p["op"] = hexCase(root, root.Bytes(16)) // OPc configured: OP must be ignored
 			}
+			if q > 0 && root.Chance(1, 3) {
+				// re-authentication of the UE of the previous derivation (same context, same subscriber,
+				// same algorithm identifiers): a new SQN, and the RAND either fresh, repeated, or one bit off;
+				// sometimes in another serving network
+				pp := probes[q-1].(map[string]interface{})
+				for _, f := range []string{"k", "op", "opc", "imsi", "nea", "nia", "mcc", "mnc"} {
+					p[f] = pp[f]
+				}
+				p["same_ue"] = true
+				k, _ = hex.DecodeString(p["k"].(string))
+				if p["opc"].(string) != "" {
+					opc, _ = hex.DecodeString(p["opc"].(string))
+				} else {
+					opb, _ := hex.DecodeString(p["op"].(string))
+					opc = crypto.OPc(k, opb)
+				}
+				prevK = k
+				switch root.Intn(3) {
+				case 0:
+					rnd, _ = hex.DecodeString(pp["rand"].(string))
+				case 1:
+					rnd, _ = hex.DecodeString(pp["rand"].(string))
+					rnd[root.Intn(16)] ^= 1 << uint(root.Intn(8))
+				}
+				p["rand"] = hex.EncodeToString(rnd)
+				if hex.EncodeToString(sqn) == pp["sqn"].(string) {
+					sqn[5] ^= 1
+				}
+				p["sqn"] = hex.EncodeToString(sqn)
+				if root.Chance(1, 4) {
+					p["mcc"] = root.Digits(3)
+				}
+			}
 			autn := crypto.AUTN(k, opc, rnd, sqn, amf)
 			// AUTN values a network may produce include leading zero octets of SQN xor AK
 			p["autn"] = hex.EncodeToString(autn)
